@@ -85,6 +85,14 @@ Definition w_loopprew : loc :=
                 [SAssign 6 vy (EVar vx); SAssign 7 vx (EBin Add (EVar vx) (EConst 1))])
          [] [].
 
+(* def f(a):               1
+       x = a                2
+       print(sum([a + x for a in range(a)]))     3   <- region 3..3 *)
+Definition w_compiter : loc :=
+  LHere [SAssign 2 vx (EVar va)]
+        [SPrint 3 (EComp va (EVar va) (EBin Add (EVar va) (EVar vx)))]
+        [].
+
 (* module level:
    x = 1                    1
    x = x + 1                2   <- region 2..2 *)
